@@ -27,7 +27,8 @@ EXPLANATION = ("Proved in Lean: the transfer functions (calculate, castValue, in
                "for-loops are desugared, C++ features, symbolic facts, container/lifetime values, facts with indirect != 0.")
 THEOREMS = ["Cppcheck.C01.calculate_sound", "Cppcheck.C01.calculate_error_iff", "Cppcheck.C01.infer_sound_counterexample",
             "Cppcheck.C01.infer_known_sound", "Cppcheck.C01.infer_sound_partial", "Cppcheck.C01.fold_binary_unsigned_wrap_counterexample",
-            "Cppcheck.C01.fold_binary_sound_partial", "Cppcheck.C01.validator_sound"]
+            "Cppcheck.C01.fold_binary_sound_partial", "Cppcheck.C01.validator_sound", "Cppcheck.C01.validator_sound_bigstep",
+            "Cppcheck.C01.interpreter_agrees_bigstep"]
 MODULES = ["Cppcheck.Props.C01"]
 
 OPS = ["+", "-", "*", "/", "%", "&", "|", "^", ">", "<", "<<", ">>", "&&", "||", "==", "!=", ">=", "<=", "<=>"]
@@ -1017,7 +1018,7 @@ def run_cppcheck_dump(ctx, path, platname):
     import time
     for attempt in range(30):
         try:
-            rc, out, err = core.sh([ctx.cppcheck, "--dump", "-q", "--platform=" + platname, "--max-configs=1", path], timeout=300)
+            rc, out, err = core.sh([os.environ.get("C01_CPPCHECK") or ctx.cppcheck, "--dump", "-q", "--platform=" + platname, "--max-configs=1", path], timeout=300)
             return rc, out + err
         except (PermissionError, FileNotFoundError, OSError):
             time.sleep(2)      # the shared binary is being relinked by a concurrent check
@@ -1306,6 +1307,131 @@ def run_programs(ctx, res, drv, progs, nargs, fuel=400, chunk=20):
         res.oblig("e2e:validator-accepts-every-reported-fact", True, "validation", "")
 
 
+# ---- validation of the MiniC semantics (the specification side) against gcc -fsanitize=undefined -------------------------------
+class InstrPrinter(Printer):
+    """prints the function with every occurrence wrapped in a tracing statement expression (GNU C)"""
+
+    def expr(self, e):
+        _, id_, inner = e
+        self.emit("TR(%d, " % id_)
+        k = inner[0]
+        if k == "L":
+            self.emit(str(inner[1]) + LIT_SUFFIX[inner[2]])
+        elif k == "V":
+            self.emit(self.names[inner[1]])
+        elif k == "U":
+            self.emit("(" + inner[1]); self.expr(inner[2]); self.emit(")")
+        elif k == "B":
+            self.emit("("); self.expr(inner[2]); self.emit(" " + inner[1] + " "); self.expr(inner[3]); self.emit(")")
+        elif k in "AO":
+            self.emit("("); self.expr(inner[1]); self.emit(" && " if k == "A" else " || "); self.expr(inner[2]); self.emit(")")
+        elif k == "C":
+            self.emit("((" + CNAME[inner[1]] + ")"); self.expr(inner[2]); self.emit(")")
+        elif k == "Q":
+            self.emit("("); self.expr(inner[1]); self.emit(" ? "); self.expr(inner[2]); self.emit(" : "); self.expr(inner[3]); self.emit(")")
+        self.emit(")")
+
+    def stmt(self, s, ind):
+        k = s[0]
+        if k == "=":
+            n = self.names[s[2]]
+            self.emit((CNAME[self.vars[s[2]]] + " " if s[4] else "") + n + " = "); self.expr(s[3]); self.emit("; REC(%d, %s);\n" % (s[1], n))
+        elif k == "op=":
+            n = self.names[s[3]]
+            self.emit(n + " " + s[2] + "= "); self.expr(s[4]); self.emit("; REC(%d, %s);\n" % (s[1], n))
+        elif k == "++":
+            n, t = self.names[s[4]], "++" if s[2] else "--"
+            if s[3]:
+                self.emit("%s%s; REC(%d, %s);\n" % (t, n, s[1], n))
+            else:
+                self.emit("{ __typeof__(%s) _o = %s; %s%s; REC(%d, _o); }\n" % (n, n, n, t, s[1]))
+        elif k == "while":
+            self.emit("while ("); self.expr(s[1]); self.emit(") { LOOPGUARD;\n"); self.stmt(s[2], ind + 1); self.emit("}\n")
+        else:
+            Printer.stmt(self, s, ind)
+
+
+NATIVE_PRELUDE = r"""
+#include <stdio.h>
+#include <stdlib.h>
+static long _it;
+static void rec_s(int id, long long v) { printf(" %d=%lld", id, v); }
+static void rec_u(int id, unsigned long long v) { printf(" %d=%llu", id, v); }
+#define REC(id, x) do { if (((__typeof__(x))-1) < 0) rec_s(id, (long long)(x)); else rec_u(id, (unsigned long long)(x)); } while (0)
+#define TR(id, e) ({ __typeof__(e) _v = (e); REC(id, _v); _v; })
+#define LOOPGUARD do { if (++_it > 300) { printf(" TIMEOUT\n"); exit(0); } } while (0)
+"""
+
+
+def native_validation(ctx, res, drv, nprog, nargs):
+    """the Lean interpreter (= the semantics the validator is proved against) and gcc must agree on traces and on UB"""
+    import shutil
+    if not shutil.which("gcc"):
+        res.notes.append("gcc not available: MiniC semantics not cross-checked natively")
+        return
+    rng = ctx.rng
+    plat = PLATFORMS["unix64"]
+    progs = [make_program(rng, plat, GRAMMAR_FULL, rng.choice([3, 4, 6])) for _ in range(nprog)]
+    src = NATIVE_PRELUDE
+    for k, pr in enumerate(progs):
+        names = [("p%d" if i < pr["nparams"] else "v%d") % i for i in range(len(pr["vars"]))]
+        ip = InstrPrinter(names, pr["vars"], pr["nparams"])
+        text, _ = ip.func(pr["body"])
+        src += text.replace("long long f(", "static long long f%d(" % k, 1) + "\n"
+    src += "int main(int argc, char** argv) {\n  setvbuf(stdout, NULL, _IONBF, 0);\n  int k = atoi(argv[1]);\n  switch (k) {\n"
+    for k, pr in enumerate(progs):
+        args = ", ".join("(%s)strtoll(argv[%d], 0, 10)" % (CNAME[t], i + 2) if t != "lu" and t != "qu" else "(%s)strtoull(argv[%d], 0, 10)" % (CNAME[t], i + 2)
+                         for i, t in enumerate(pr["vars"][:pr["nparams"]]))
+        src += "  case %d: f%d(%s); break;\n" % (k, k, args)
+    src += "  }\n  printf(\" RET\\n\");\n  return 0;\n}\n"
+    d = os.path.join(ctx.tmp, "native")
+    os.makedirs(d, exist_ok=True)
+    cpath, exe = os.path.join(d, "n.c"), os.path.join(d, "n")
+    open(cpath, "w").write(src)
+    rc, out, err = core.sh(["gcc", "-std=gnu11", "-O0", "-w", "-fsanitize=undefined", "-fno-sanitize-recover=all", "-fwrapv-pointer", cpath, "-o", exe], timeout=600)
+    if rc != 0:
+        res.oblig("spec:native-build", False, "machinery", "gcc does not compile the instrumented programs: " + err[-1500:])
+        return
+    lines, meta = [], []
+    for k, pr in enumerate(progs):
+        for args in boundary_args(rng, plat, dict(pr, index=node_index(pr["body"])), nargs)[:nargs]:
+            lines.append("run %s 2000 %s ## %s" % (plat.wire(), pr["wire"], " ".join(map(str, args))))
+            meta.append((k, pr, args))
+    rc, lout, err = core.run_lines(drv, [], lines, timeout=1200)
+    bad, compared = [], 0
+    for (k, pr, args), lo in zip(meta, lout):
+        lparts = lo.split()
+        if lparts[0] == "timeout":
+            res.count("native:lean-timeout"); continue
+        # unsigned values travel as their value; the interpreter holds values in the type's range already
+        rc, nout, nerr = core.sh([exe, str(k)] + [str(a) for a in args], timeout=20)
+        nparts = nout.split()
+        if nparts and nparts[-1] == "TIMEOUT":
+            res.count("native:timeout"); continue
+        native_ub = rc != 0
+        nevs = [p for p in nparts if "=" in p]
+        levs = lparts[1:]
+        compared += 1
+        def per_id(evs):
+            d = {}
+            for p in evs:
+                i, v = p.split("=")
+                d.setdefault(i, []).append(v)
+            return d
+        # the order in which the operands of an operator are evaluated is unspecified in C (and irrelevant here, expressions
+        # have no side effects): compare the value sequence of every occurrence, not the interleaving
+        if lparts[0] == "ub":
+            ok = native_ub
+        else:
+            ok = (not native_ub) and per_id(nevs) == per_id(levs)
+        res.count("native:" + lparts[0])
+        if not ok:
+            bad.append("f(%s): interpreter %s | gcc rc=%s %s %s\n%s" % (", ".join(map(str, args)), lo[:300], rc, " ".join(nparts)[:300], nerr[-200:], pr["text"]))
+    res.extra["native_runs_compared"] = res.extra.get("native_runs_compared", 0) + compared
+    res.oblig("spec:interpreter-agrees-with-gcc-ubsan", not bad and compared > 0, "validation",
+              "" if not bad else "%d of %d runs differ; first: %s" % (len(bad), compared, bad[0]))
+
+
 def totuple(x):
     return tuple(totuple(y) for y in x) if isinstance(x, list) else x
 
@@ -1332,7 +1458,7 @@ def run(ctx, res):
     if THEOREMS:
         core.prove(ctx, res, MODULES, THEOREMS)
     drv = ctx.driver("drv_c01")
-    exe = ctx.harness("c01")
+    exe = os.environ.get("C01_HARNESS") or ctx.harness("c01")      # C01_HARNESS / C01_CPPCHECK: mutation experiments only (docs/C01.md)
     run_transfer(ctx, res, drv, exe, 40000 if thorough else 6000, 40000 if thorough else 6000)
     nprog = 3000 if thorough else int(os.environ.get("C01_NPROG", "100"))
     plats = ["unix64", "unix32", "win64"] if thorough else ["unix64"]
@@ -1341,11 +1467,12 @@ def run(ctx, res):
     for i in range(nprog):
         progs.append(make_program(ctx.rng, PLATFORMS[plats[i % len(plats)]]))
     run_programs(ctx, res, drv, progs, 300 if thorough else 200)
+    native_validation(ctx, res, drv, 150 if thorough else 12, 12 if thorough else 6)
 
 
 def replay(ctx, res, rp):
     drv = ctx.driver("drv_c01")
-    exe = ctx.harness("c01")
+    exe = os.environ.get("C01_HARNESS") or ctx.harness("c01")
     if rp.get("kind") in ("calc", "infer"):
         rc, impl, err = core.run_lines(exe, [], [rp["op"]])
         print("replay: %s -> %s" % (rp["op"], impl))
